@@ -596,6 +596,14 @@ def gen_freq(run, rng, tier):
   for length in (max_len, max_len - 1, max_len - 5, max_len + 3):
     for m in (1, 2, 5, 9, 10, 11):
       cases.append((rng.getrandbits(length), length, m, 'long'))
+  # counter saturation (seeded C15-4: a packed 16-bit tally table in the accelerated branch):
+  # constant / periodic / almost constant strings long enough for ONE window value to occur more
+  # than 2^16 times at the branch's stride, where random strings spread the tally thinly
+  for length in (2**18 + 8 + rng.randrange(8), 2**19 + rng.randrange(16)):
+    ones = (1 << length) - 1
+    for seq in (0, ones, ones // 3, ones ^ (1 << rng.randrange(length)),
+                1 << rng.randrange(length)):
+      cases.append((seq, length, rng.choice((1, 2, 3)), 'saturate'))
   for seq, length, m, tag in cases:
     for wrap in (True, False):
       run.add('bs.freq', (seq, length, m, wrap),
